@@ -29,7 +29,9 @@ func init() {
 		ID:              "C14",
 		Level:           "exploration",
 		RaceIsViolation: true,
-		Cases:           func(tier string) int { return baseCases(tier) + ctxCases(tier) + r4Cases(tier) + r5Cases(tier) },
+		Cases: func(tier string) int {
+			return baseCases(tier) + ctxCases(tier) + r4Cases(tier) + r5Cases(tier) + ksCases(tier)
+		},
 		Rule: "cases 0..639 (quick) / 0..39999 (thorough): case i runs class i%4: (0) middleware-concurrent, (1) publisher-decorator-concurrent: a multiset of 4..96 messages over 1..5 keys (payload sizes around the 64-byte read limit: equal prefixes with different tails, keys from SHA-256/Adler-32 with limits 1..MaxInt64 or a metadata field), " +
 			"presented by 1..32 goroutines released by a barrier with yield injection at the repository's hook point, retention window 1 h (or the default repository, Repository left nil: one minute); exactly one message per key may reach the handler / inner publisher, all others must come back as (nil,nil) resp. acked and filtered; " +
 			"(2) window: windows 5..50 ms, IsDuplicate polled with conservative monotonic stamps: a key accepted at [a0,a1] must be reported duplicate by any call ending before a0+window, and must be accepted again before 40 ticks of the harness's own ticker of period window/2 were received later than a1+window*1.5+1s (30 s budget, then inconclusive); " +
@@ -52,10 +54,15 @@ func init() {
 			"Expectations are computed from the batch as the caller built it (private copy): per long-window deduplicator and key presented to it exactly one message reaches the wrapped publisher / handler (none-passed: suppressed by other keys / by what another deduplicator remembers / lost; duplicate-passed); short window: two acceptances of a key span at least the window (accepted-twice-within-window), a presentation of the batch that started later than lastAcceptanceEnd + window*1.5 + 1 s, 40 control ticks past that instant, and let no message of the key through is stuck-after-expiry; " +
 			"a member dropped while nothing of its key got through yet is dropped-without-winner (sequential presentations); no error comes back, dropped members are acked, never-dropped ones not settled, (nil,nil) / the handler's result from the middleware; " +
 			"after every call the caller's slice holds the same message pointers in the same order (caller-batch-rewritten) and UUID, payload and metadata of every member are unchanged (caller-message-changed), reported after the clauses above; the slice passed to Publish is compared in the same way after every decorator call of classes 1, 5 and 7 (also when the call returned an error or panicked), the message values at the end of classes 0 and 1. " +
-			"Non-trivial: at least one key had >=2 concurrent presentations (0,1) / at least one duplicate answer and one re-acceptance were observed (2) / >=20 pairs (3) / at least one arrival whose context may be done (4,5) / every key was accepted >= 4 times and duplicates were answered (6) / at least one rejected invocation and one confirmed key (7,8) / a presentation in which a member was dropped in front of one that got through, and the batch was presented again afterwards (9) / a message dropped by one presentation got through in a later one (10). Distinct = (class, shape, observed winner pattern).",
+			"The last 240 (quick) / 6000 (thorough) cases run, by index j%3: (11) keyspace-repository (IsDuplicate called directly), (12) keyspace-middleware, (13) keyspace-decorator (batches of 1..4) - the key is an arbitrary string (metadata-field hasher 60%, a user KeyFactory returning the payload 40%; repository 1 h or the default minute): " +
+			"2..8 keys that are different Go strings but close to each other, one family per case: common-prefix / common-suffix (shared part of 0..4096 bytes, lengths around 4, 8, 16, 32, 64, 128, 256; distinct tails incl. a single NUL), one-byte-differs (one offset: first, last, middle, 3..128; one bit or any), prefixes-of-each-other (incl. the empty key), padding (trailing/leading NUL, blank, newline, tab, '=', '0'), " +
+			"case-and-unicode (letter case, NFC/NFD, look-alike letters, zero-width and no-break blanks, invalid UTF-8 vs U+FFFD), permutations (swap, reverse, rotate of the same bytes), repetitions of one period, numeric-spellings of one number, digest-encodings (raw/hex/HEX/base64/doubled/halved digest of 4..64 bytes); " +
+			"every key presented 1..3 times in shuffled order, sequentially (60%) or by 2..8 barrier-released goroutines; per distinct string exactly one presentation gets through (different-key-suppressed: none did, so only other keys can have suppressed it; duplicate-passed), sequentially the first one (dropped-without-winner), no error comes back, drops are (nil,nil) / acked. " +
+			"Non-trivial: at least one key had >=2 concurrent presentations (0,1) / at least one duplicate answer and one re-acceptance were observed (2) / >=20 pairs (3) / at least one arrival whose context may be done (4,5) / every key was accepted >= 4 times and duplicates were answered (6) / at least one rejected invocation and one confirmed key (7,8) / a presentation in which a member was dropped in front of one that got through, and the batch was presented again afterwards (9) / a message dropped by one presentation got through in a later one (10) / >=2 different keys and at least one duplicate dropped (11-13). Distinct = (class, shape, observed winner pattern).",
 		Assumptions: []string{
 			"keys are compared through an independent reference (payload prefix / metadata value); hash collisions between different prefixes are not observable and assumed absent",
 			"time is used only as a lower bound (window) and with a control ticker for the bounded 'accepted again' clause",
+			"keyspace classes: two keys are the same key iff the Go strings are equal (MessageHasher returns a string, IsDuplicate takes a string; no normalisation, length limit or charset is documented); the empty string is a key; a second acceptance is judged only if the case took less than a quarter of the window",
 			"ctx classes: an ExpiringKeyRepository may honour its context, so an error for an arrival whose derived context may be done is tolerated and counted (ctx_rejected_with_tolerated_error); such an arrival then counts neither as the one that got through nor as a dropped duplicate",
 			"hot-expiry: 'accepted again after it expired' is judged only sequentially, from a presentation that STARTED more than window*1.5 (documented maximum retention of NewMapExpiringKeyRepository) + 1 s after the end of the last accepting call, and only after 40 ticks of a harness ticker with the clean-up period were received past that instant; time enters as a lower bound only, a slow machine delays the verdict",
 			"fault classes: what a deduplicator does with the keys of a batch the wrapped publisher rejected (error or panic) is not specified by the statement and not judged; retention 1 h or the default minute, second acceptances judged only if the case took less than a quarter of it",
@@ -80,6 +87,9 @@ func r4Cases(tier string) int { return vlib.TierN(tier, 320, 6000) }
 func r5Cases(tier string) int { return vlib.TierN(tier, 240, 6000) }
 
 func run(e *vlib.Env) vlib.Result {
+	if b := baseCases(e.Tier) + ctxCases(e.Tier) + r4Cases(e.Tier) + r5Cases(e.Tier); e.Idx >= b {
+		return keyspace(e, (e.Idx-b)%3)
+	}
 	if b := baseCases(e.Tier) + ctxCases(e.Tier) + r4Cases(e.Tier); e.Idx >= b {
 		return retained(e, (e.Idx-b)%4 != 3)
 	}
